@@ -173,7 +173,13 @@ other("C15", "frames proved: FixedZoomPyramid.disparity_range, prepare_pyramid a
       "coarser disparity dataset untouched; run_multiscale only rebinds the machine's fields and pops its own pyramids ("
       + FRAME_NOTE + "); scale schedule and interval propagation:", trusted=FRAME_TRUSTED)
 other("C16", "img_tools.get_window (ROI window clipped to the image, first/last row and column included) proved for all inputs; "
-      "dataset construction from files:")
+      "add_no_data (NaN / infinite no-data samples, and only those, become -9999; the recorded nodata value follows) and add_mask "
+      "(no mask variable iff there is neither an input mask nor a no-data sample; otherwise a pixel is no-data exactly on the "
+      "no-data samples, invalid exactly where the input mask is non-zero and the pixel is not no-data, valid elsewhere) proved over "
+      "symbolic monoband datasets, the raster read of the mask file being an assumed pure function; file reading, band names, "
+      "disparity variable, classification / segmentation, ROI equals crop:",
+      trusted=["assumed: rasterio reader.read(band, window=w) is a pure function of (path, band, window) returning a 2-D integer "
+               "array of the window's size (the size is a stated precondition: the input checker of C17 enforces it)"])
 other("C17", "no contract within reach decides this property (xarray dataset validation and file probing through rasterio); ")
 other("C19", "no contract within reach decides this property (command-line entry point, rasterio file output, JSON round trip); ")
 other("C20", "margin tables of every step class decided exhaustively (@tables), Margins descriptors and the margins getters of "
